@@ -103,6 +103,8 @@ Clauses(t, k) ==
   THEN (IF Query(pre, e) = e.ret THEN {} ELSE {"query:" \o e.q})
        \cup (IF Load(e.post) = pre THEN {} ELSE {"query-mutates"})
   ELSE IF e.op = "resync" THEN {}            \* the harness edited through the public API; nothing judged
+  ELSE IF e.op = "readonly" /\ Load(e.post) = pre THEN {}      \* a stuttering step is what C11 asks for, on any tree (and the
+                                                               \* forest tests below are quadratic: trees of thousands of nodes)
   ELSE IF ~(NoSharing(pre.kids) /\ Acyclic(pre.kids)) THEN {}     \* the caller already broke the usage constraint (a node in two
                                                                  \* child lists): outside the quantifier, nothing is claimed
   ELSE IF e.op \in {"import_doc", "discarding"} THEN Registry(pre, e, Load(e.post))
